@@ -336,4 +336,117 @@ theorem T_enumValueList {g : Bool} {w : W} {ts : List Tok} (es : List EnumValDef
       tokText_braceR.lexTo (StartOK_false _)
     exact I.free (by simpa [formatEnumValueList, printBlock, List.append_assoc] using h4)
 
+/-! ### type definitions and extensions -/
+
+omit hind in
+theorem tokText_kindKeyword (k : DefKind) :
+    TokText (kindKeyword k) (DefKind.keyword k) true ∧ trimSpace (kindKeyword k) = kindKeyword k := by
+  cases k
+  · exact ⟨tokText_kw "scalar" (by decide), by decide⟩
+  · exact ⟨tokText_kw "type" (by decide), by decide⟩
+  · exact ⟨tokText_kw "interface" (by decide), by decide⟩
+  · exact ⟨tokText_kw "union" (by decide), by decide⟩
+  · exact ⟨tokText_kw "enum" (by decide), by decide⟩
+  · exact ⟨tokText_kw "input" (by decide), by decide⟩
+
+/-- `implements A & B` -/
+theorem T_implements {w : W} {ts : List Tok} (ifs : List Name) (h : I false w ts) (hn : ifs.all isNameB = true) :
+    I false (if (!ifs.isEmpty) = true then
+        w |> writeWord cfg (str "implements") |> writeWord cfg (joinNames (str " & ") ifs) else w)
+      (ts ++ printImplements ifs) := by
+  have hb := blankIndent_of_allBlank hind
+  cases ifs with
+  | nil => simpa [printImplements] using h
+  | cons n ns =>
+    have e : str " & " = [32, 38, 32] := by decide
+    have h1 := P_word hb (cfg := cfg) h (tokText_kw "implements" (by decide)).lexTo (StartOK_false _) (by decide)
+    have h2 := P_word hb (cfg := cfg) (g := false) (I.mk h1 (by simp [tightOf]))
+      (lexTo_joinNames 38 .amp (by decide) (n :: ns) (by simp) hn) (StartOK_false _)
+      (trimSpace_joinNames _ _ hn)
+    exact I.mk (by simpa [printImplements, e, List.append_assoc] using h2) (by simp [tightOf])
+
+/-- `= A | B` -/
+theorem T_members {w : W} {ts : List Tok} (tys : List Name) (h : I false w ts) (hn : tys.all isNameB = true) :
+    I false (if (!tys.isEmpty) = true then
+        w |> writeWord cfg [61] |> writeWord cfg (joinNames (str " | ") tys) else w)
+      (ts ++ printMembers tys) := by
+  have hb := blankIndent_of_allBlank hind
+  cases tys with
+  | nil => simpa [printMembers] using h
+  | cons n ns =>
+    have e : str " | " = [32, 124, 32] := by decide
+    have h1 := P_word hb (cfg := cfg) h tokText_equals.lexTo (StartOK_false _) (by decide)
+    have h2 := P_word hb (cfg := cfg) (g := false) (I.free h1)
+      (lexTo_joinNames 124 .pipe (by decide) (n :: ns) (by simp) hn) (StartOK_false _)
+      (trimSpace_joinNames _ _ hn)
+    exact I.mk (by simpa [printMembers, e, List.append_assoc] using h2) (by simp [tightOf])
+
+/-- what `FormatDefinition` writes after the keyword, whatever the kind -/
+def genDefBody (d : Definition) : List Tok :=
+  tName d.name :: printImplements d.interfaces ++ printDirectives d.dirs ++ printMembers d.types
+    ++ printBlock (genFieldD descTok) d.fields ++ printBlock (printEnumValD descTok) d.enumValues
+
+/-- name, interfaces, directives, members, fields, enum values, newline -/
+theorem T_defBody {w : W} {ts : List Tok} (d : Definition) (h : I false w ts) (hd : defOk d = true) :
+    LexTo (writeNewline (formatEnumValueList cfg d.enumValues (formatFieldList cfg d.fields
+      (if (!d.types.isEmpty) = true then
+        (formatDirectiveList cfg d.dirs
+          (if (!d.interfaces.isEmpty) = true then
+            writeWord cfg d.name w |> writeWord cfg (str "implements")
+              |> writeWord cfg (joinNames (str " & ") d.interfaces)
+          else writeWord cfg d.name w)) |> writeWord cfg [61] |> writeWord cfg (joinNames (str " | ") d.types)
+      else formatDirectiveList cfg d.dirs
+          (if (!d.interfaces.isEmpty) = true then
+            writeWord cfg d.name w |> writeWord cfg (str "implements")
+              |> writeWord cfg (joinNames (str " & ") d.interfaces)
+          else writeWord cfg d.name w))))).text
+      (ts ++ genDefBody (normDef cfg d)) false := by
+  have hb := blankIndent_of_allBlank hind
+  simp only [defOk, Bool.and_eq_true] at hd
+  obtain ⟨⟨⟨⟨⟨⟨⟨_, hname⟩, hdirs⟩, hifs⟩, htys⟩, hfields⟩, henum⟩, _⟩ := hd
+  have h1 := P_word hb (cfg := cfg) h (tokText_name d.name hname).lexTo (StartOK_false _) (trimSpace_name _ hname)
+  have h2 := T_implements hind d.interfaces (I.mk h1 (by simp [tightOf])) hifs
+  have h3 := T_directiveList hb d.dirs false _ _ h2 hdirs
+  have h4 := T_members hind d.types h3 htys
+  have h5 := T_fieldList hind (g := false) d.fields h4 hfields
+  have h6 := T_enumValueList hind (g := false) d.enumValues h5 henum
+  have h7 := P_newline h6
+  simpa [genDefBody, normDef, List.append_assoc] using h7
+
+/-- `FormatDefinition` -/
+theorem T_definition {w : W} {ts : List Tok} (extend : Bool) (d : Definition) (h : LexTo w.text ts false)
+    (hd : defOk d = true) (hext : extend = true → d.desc = []) :
+    LexTo (formatDefinition cfg extend d w).text
+      (ts ++ (if keepDef cfg d = true then
+          (if extend = true then tKw "extend" :: DefKind.keyword d.kind :: genDefBody (normDef cfg d)
+           else descTok (normDesc cfg d.desc) ++ DefKind.keyword d.kind :: genDefBody (normDef cfg d))
+        else [])) false := by
+  have hb := blankIndent_of_allBlank hind
+  by_cases hk : keepDef cfg d = true
+  · have hk' : (!cfg.emitBuiltin && d.builtIn) = false := by
+      simp only [keepDef, Bool.or_eq_true, Bool.not_eq_true'] at hk
+      rcases hk with hk | hk <;> simp [hk]
+    have hdesc : strRaw d.desc = true := by
+      simp only [defOk, Bool.and_eq_true] at hd
+      exact hd.1.1.1.1.1.1.1
+    obtain ⟨kw1, kw2⟩ := tokText_kindKeyword d.kind
+    have h1 := T_description hind d.desc (I.free (g := false) h) hdesc
+    cases extend with
+    | false =>
+      have h2 := P_word hb (cfg := cfg) h1 kw1.lexTo (StartOK_false _) kw2
+      have h3 := T_defBody hind d (I.mk h2 (by simp [tightOf])) hd
+      simpa [formatDefinition, hk, hk', List.append_assoc] using h3
+    | true =>
+      have hd0 := hext rfl
+      have e0 : descTok (normDesc cfg d.desc) = [] := by simp [descTok, normDesc, hd0]
+      rw [e0] at h1
+      have h2a := P_word hb (cfg := cfg) h1 (tokText_kw "extend" (by decide)).lexTo (StartOK_false _) (by decide)
+      have h2 := P_word hb (cfg := cfg) (g := false) (I.mk h2a (by simp [tightOf])) kw1.lexTo (StartOK_false _) kw2
+      have h3 := T_defBody hind d (I.mk h2 (by simp [tightOf])) hd
+      simpa [formatDefinition, hk, hk', List.append_assoc] using h3
+  · have hk' : (!cfg.emitBuiltin && d.builtIn) = true := by
+      simp only [keepDef, Bool.or_eq_true, Bool.not_eq_true', not_or, Bool.not_eq_false] at hk
+      simp [hk.1, hk.2]
+    simpa [formatDefinition, hk, hk'] using h
+
 end Gql.Format
